@@ -241,15 +241,24 @@ StrCalls(rt, cd, n) ==
 (* ====================================================================== *)
 (* routing: C17 - every message kind reaches its module *)
 ModsFor(acc) == [s \in Slots |-> IF s \in acc THEN "accept" ELSE "fail"]
+(* E is an instance of code 3: the scripted contract written against the EMPTY message type and
+   lifted by ContractWrapper::new_with_empty (it cannot emit the chain's custom message) *)
+E == "c3_3"
+GenesisRoute == Genesis0 \o
+    << [call |-> [k |-> "store_code", creator |-> "u1", flavour |-> 3], sc |-> <<>>],
+       [call |-> ExecuteCall("u1", << Inst(3, "LE", "", <<>>, "") >>), sc |-> <<B0>>] >>
+SlotsOf(c) == IF c = E THEN Slots \ {"custom"} ELSE Slots
 RouteMenu(info, fuel, cu) ==
-    IF info.entry = "reply" THEN {B0}
-    ELSE {Beh(FALSE, WriteTok(info), <<>>, <<>>, NoData, <<Sub(Mod(s, "m1"), 1, "", on)>>) : s \in Slots, on \in Ons}
+    IF info.entry = "reply" \/ Len(cu.sc) > 0 THEN {B0}
+    ELSE {Beh(FALSE, WriteTok(info), <<>>, <<>>, NoData, <<Sub(Mod(s, "m1"), 1, "", on)>>) : s \in SlotsOf(info.c), on \in Ons}
          \cup {Beh(FALSE, WriteTok(info), <<>>, <<>>, NoData, <<Sub(Send("u2", 1), 1, "", "never"), Sub(Mod(s, "m2"), 2, "", on)>>) :
-                  s \in Slots, on \in {"never", "error"}}
+                  s \in SlotsOf(info.c), on \in {"never", "error"}}
+         \cup {Beh(FALSE, WriteTok(info), <<>>, <<>>, NoData, <<Sub(m, 3, "", on)>>) :
+                  m \in {Exec(B, <<>>), Exec(B, Eth(1)), Inst(2, "Lw", "", <<>>, ""), Send("u2", 1), Burn(1)}, on \in {"never", "success"}}
 RouteCalls(rt, cd, n) ==
     { ExecuteCall("u1", << Mod(s, "m0") >>) : s \in Slots }
     \cup { ExecuteCall("u1", << Send("u2", 1), Mod(s, "m3") >>) : s \in Slots }
-    \cup { ExecuteCall("u1", << Exec(c, <<>>) >>) : c \in {A, B} }
+    \cup { ExecuteCall("u1", << Exec(c, <<>>) >>) : c \in {A, B, E} }
 ModsAcceptAll == ModsFor(Slots)
 ModsMixed == ModsFor({"custom", "ibc", "any"})
 =============================================================================
